@@ -1,6 +1,7 @@
 // C15 conformance driver: serialises tensors, parameters, features, configured and fitted objects, then reads back every
 // strict prefix, the full stream and streams with one altered tensor payload byte through a tracing std::streambuf.
 //   stream_driver <out.ndjson> <seed> <scale>
+#include <algorithm>
 #include "problems.h"
 #include <cstring>
 #include <functional>
@@ -128,9 +129,27 @@ blob_t tensor_blob(vt::Rng& rng, int64_t maxdim, bool allow_zero)
     blob_t blob;
     blob.kind   = "tensor<" + std::to_string(sizeof(tscalar)) + (std::is_floating_point_v<tscalar> ? "f" : (std::is_signed_v<tscalar> ? "i" : "u")) + "," + std::to_string(trank) + ">";
     blob.bytes  = os.str();
-    blob.reader = [tensor](std::istream& stream)
+    // the destination: a fresh tensor, or a used one with the same number of elements in another shape, or of another size
+    auto ddims = typename tensor_mem_t<tscalar, trank>::tdims{};
+    ddims.fill(0);
+    switch (rng.range(0, 3))
     {
-        tensor_mem_t<tscalar, trank> copy;
+    case 0:
+        ddims = dims;
+        std::reverse(ddims.begin(), ddims.end());
+        break;
+    case 1:
+        ddims.fill(1);
+        ddims[trank - 1] = std::max<tensor_size_t>(1, tensor->size()); // flat: same count
+        break;
+    case 2:
+        ddims.fill(2);
+        break;
+    default: break;
+    }
+    blob.reader = [tensor, ddims](std::istream& stream)
+    {
+        tensor_mem_t<tscalar, trank> copy(ddims);
         ::nano::read(stream, copy);
         return static_cast<bool>(stream) && copy.dims() == tensor->dims() &&
                (tensor->size() == 0 || std::memcmp(copy.data(), tensor->data(), sizeof(tscalar) * static_cast<size_t>(tensor->size())) == 0);
@@ -148,9 +167,9 @@ void tensor_blobs(vt::Rng& rng, std::vector<blob_t>& blobs, int64_t per_rank)
     {
         blobs.push_back(tensor_blob<tscalar, 1>(rng, 6, true));
         blobs.push_back(tensor_blob<tscalar, 2>(rng, 6, true));
-        blobs.push_back(tensor_blob<tscalar, 3>(rng, 5, true));
-        blobs.push_back(tensor_blob<tscalar, 4>(rng, 4, i % 2 == 1));
-        blobs.push_back(tensor_blob<tscalar, 5>(rng, 3, i % 2 == 1));
+        blobs.push_back(tensor_blob<tscalar, 3>(rng, 6, true));
+        blobs.push_back(tensor_blob<tscalar, 4>(rng, i % 2 == 1 ? 6 : 4, true));
+        blobs.push_back(tensor_blob<tscalar, 5>(rng, i % 2 == 1 ? 6 : 3, true));
     }
 }
 
